@@ -34,6 +34,7 @@
  * (retired_count), hp<t>_<i>; G<g>.  Objects: R<t> (records), n<i> (arena nodes, 1-based).
  */
 #include <malloc.h>
+#include <sys/mman.h>
 #include <stdint.h>
 #include <stdlib.h>
 
@@ -74,7 +75,14 @@ typedef struct anode {
 
 static _Atomic(hazard_pointer_thread_record_t*) hp_head;
 static hazard_pointer_thread_record_t* rec[VH_MAXT];
-static anode_t arena[MAXNODES];
+/* node i lives at arena_base + i * arena_stride.  Default: one dense array (addresses collide
+ * in every order).  With env VH_SPREAD=1 the nodes are 3 GiB + 48 bytes apart in a reserved
+ * (never touched except for the nodes) mapping, so pointer DIFFERENCES do not fit in 32 bits:
+ * "all address patterns" includes hazard pointers that far apart. */
+static anode_t arena_dense[MAXNODES];
+static char* arena_base = (char*)arena_dense;
+static size_t arena_stride = sizeof(anode_t);
+#define ARENA(i) ((anode_t*)(arena_base + (size_t)(i) * arena_stride))
 static int narena, ng;
 static _Atomic(anode_t*) G[MAXG];
 
@@ -84,7 +92,7 @@ static anode_t* freelist[MAXNODES];
 static int nfree;
 static anode_t* validated[VH_MAXT][MAXK];
 
-static int nid(anode_t* n) { return n ? (int)(n - arena) + 1 : 0; }
+static int nid(anode_t* n) { return n ? (int)(((char*)n - arena_base) / arena_stride) + 1 : 0; }
 /* "@n3" or "0" */
 static const char* nname(anode_t* n) {
   static __thread char buf[4][16];
@@ -246,15 +254,21 @@ int main(int argc, char** argv) {
   ng = atoi(argv[3]);
   if (cfg_k < 1 || cfg_k > MAXK || narena < 1 || narena > MAXNODES || ng < 1 || ng > MAXG) return 2;
   vh_parse(argv[4]);
+  if (getenv("VH_SPREAD") && atoi(getenv("VH_SPREAD"))) {
+    arena_stride = ((size_t)3 << 30) + 48;
+    arena_base = mmap(0, arena_stride * (size_t)(narena + 1), PROT_READ | PROT_WRITE,
+                      MAP_PRIVATE | MAP_ANONYMOUS | MAP_NORESERVE, -1, 0);
+    if (arena_base == MAP_FAILED) return 2;
+  }
   vr_reg(&hp_head, sizeof hp_head, "head");
   for (int g = 0; g < ng; g++) vr_reg(&G[g], sizeof G[g], "G%d", g);
   for (int i = 0; i < narena; i++) {
-    vr_obj(&arena[i], sizeof arena[i], "n%d", i + 1);
-    set_poison(&arena[i], 1);
+    vr_obj(ARENA(i), sizeof(anode_t), "n%d", i + 1);
+    set_poison(ARENA(i), 1);
   }
   /* free list pops the LOWEST index last so fresh nodes come in descending address order
    * first and in recycling order afterwards */
-  for (int i = 0; i < narena; i++) freelist[nfree++] = &arena[i];
+  for (int i = 0; i < narena; i++) freelist[nfree++] = ARENA(i);
   vr_note("init hp %d %d %d", cfg_k, narena, ng);
   vh_run(do_op);
   /* drain, single-threaded, acting for each record in turn */
